@@ -16,6 +16,12 @@ CHECKS = {
     text="Search, not proof: 40k (quick) to 3M (thorough) generated configurations x operation sequences of up to 40 steps over files of 0-300 position-coded bytes, so buffer boundaries, evictions and window edges are dense.",
     note="Reference model: io.BytesIO(file[offset:offset+size]). The module's time source is replaced by a case-driven sequence; underlying object is BytesIO, an unbuffered real file, or data=.",
     design_ref="DESIGN.md section 4, C20"),
+ "C13": dict(
+    engine="enumeration + hypothesis",
+    technique="generated Range header strings (structured around 0/L-1/L/L+1/2L/2^63 and malformed) against an RFC 7233 reference classifier; differential against the unranged body",
+    text="Search, not proof. The 8x8 boundary grid per range form and per URL is enumerated exhaustively; 24k (quick) to 1M (thorough) further header strings are generated. Five URLs: clear / encrypted / audio vod segment, on-demand video and text file.",
+    note=SHIMS + ". Reference body = unranged GET (segments) or the stored file (on-demand route).",
+    design_ref="DESIGN.md section 4, C13"),
 }
 
 _PENDING = "check under construction in this build round; not yet registered (see DESIGN.md section 9)"
